@@ -387,8 +387,8 @@ func exhaustiveDyn(maxLen int, thorough bool) []dynCase {
 		gap int
 	}
 	var confs []conf
-	ns := []int{0, 2, 3}
-	Hs := []int64{0, 3}
+	ns := []int{0, 3}
+	Hs := []int64{3}
 	hh := []int64{2}
 	if thorough {
 		ns = []int{0, 1, 3}
@@ -924,7 +924,7 @@ func main() {
 
 	// ---- Dynamic
 	ds := hx.NewStream("dyn", "model.Lists", "dyn_case", "c19_dyn_mismatches", "c19_dyn_violations")
-	ds.ShardMax = 250
+	ds.ShardMax = 150
 	addDyn := func(c dynCase, tag string) {
 		term, js, nontriv, panicked := runDyn(c)
 		tags := []string{tag}
@@ -949,9 +949,9 @@ func main() {
 	for _, c := range exhaustiveDyn(exLen, cfg.Thorough()) {
 		addDyn(c, "exhaustive")
 	}
-	nd, dmax := 1200, 30
+	nd, dmax := 1000, 30
 	if cfg.Thorough() {
-		nd, dmax = 12000, 60
+		nd, dmax = 9000, 60
 	}
 	for i := 0; i < nd; i++ {
 		m := dmax
@@ -963,7 +963,7 @@ func main() {
 
 	// ---- widgets/list
 	ws := hx.NewStream("wlist", "model.Lists", "wl_case", "c19_wlist_mismatches", "c19_wlist_violations")
-	ws.ShardMax = 250
+	ws.ShardMax = 150
 	addWl := func(items []string, ops []wlOp, tag string) {
 		term, js, nontriv := runWl(sr, items, ops)
 		ws.Add(term, js, nontriv, tag)
@@ -976,7 +976,7 @@ func main() {
 	}
 	addWl(nil, []wlOp{dw(0), dw(-1), dw(2)}, "directed")
 	addWl([]string{"aa"}, []wlOp{dw(-1), dw(0), dw(1)}, "directed")
-	nw, wmax := 1200, 30
+	nw, wmax := 800, 30
 	if cfg.Thorough() {
 		nw, wmax = 8000, 60
 	}
@@ -987,7 +987,7 @@ func main() {
 
 	// ---- pager
 	ps := hx.NewStream("pager", "model.Lists", "pager_case", "c19_pager_mismatches", "c19_pager_violations")
-	ps.ShardMax = 200
+	ps.ShardMax = 60
 	addPg := func(segs []string, ops []pgOp, tag string) {
 		term, js, nontriv := runPager(sr, segs, ops)
 		ps.Add(term, js, nontriv, tag)
@@ -997,9 +997,9 @@ func main() {
 	for _, t := range []string{"abc", "abc\ndef", "abc\n", "", "\n", "abcd", "abcde", "ab界", "a\n\nb"} {
 		addPg([]string{t}, []pgOp{pd(4, 3), {kind: "down"}, pd(4, 3), {kind: "down"}, {kind: "down"}, pd(4, 1), {kind: "setoffset", k: -5}, pd(4, 2), pd(2, 2), pd(0, 2)}, "directed")
 	}
-	np, pmax := 900, 14
+	np, pmax := 600, 14
 	if cfg.Thorough() {
-		np, pmax = 5000, 30
+		np, pmax = 4000, 30
 	}
 	for i := 0; i < np; i++ {
 		segs, ops := genPagerCase(cfg, pmax)
@@ -1014,7 +1014,7 @@ func main() {
 		sensible := view >= 1 && view < total && top >= 0 && top <= total-view && h >= 1 && w >= 1
 		ss.Add(term, js, sensible, tag)
 	}
-	nb := 800
+	nb := 500
 	if cfg.Thorough() {
 		nb = 10000
 	}
